@@ -22,6 +22,16 @@ class Recorder(Obj):
         self.outcomes = outcomes or (lambda name, bound: ['return'])
 
 
+class RecCM(Obj):
+    """Context manager returned by a recorder's @contextmanager method (e.g. cache.transact)."""
+
+    def __init__(self, rec, name, bound):
+        Obj.__init__(self, 'RecCM', {})
+        self.rec = rec
+        self.name = name
+        self.bound = bound
+
+
 DUNDER = {'__setitem__', '__getitem__', '__delitem__', '__contains__', '__len__', '__iter__',
           '__reversed__', '__enter__', '__exit__'}
 
@@ -39,11 +49,17 @@ def install(env):
     base_enter, base_exit = env.cm_enter, env.cm_exit
 
     def cm_enter(it, cm):
+        if isinstance(cm, RecCM):
+            it.st.effect('CM_ENTER', target=cm.rec, name=cm.name, bound=cm.bound)
+            return None
         if isinstance(cm, Recorder):
             return it.call(it.getattr(cm, '__enter__'), [], {})
         return base_enter(it, cm)
 
     def cm_exit(it, cm, exc):
+        if isinstance(cm, RecCM):
+            it.st.effect('CM_EXIT', target=cm.rec, name=cm.name, exc=exc)
+            return False
         if isinstance(cm, Recorder):
             it.call(it.getattr(cm, '__exit__'), [None, None, None] if exc is None else [exc.cls, exc, None], {})
             return False
@@ -59,6 +75,12 @@ def recorder_method(it, rec, name):
         return call_recorded(it, rec, name, sig.fget, [], {})
     if not isinstance(sig, FuncVal):
         raise Unsupported('recorder attribute %s is %r' % (name, sig))
+    if sig.is_cm:
+        def make_cm(it2, a, k):
+            bound = it2.bind_args(sig, [rec] + list(a), dict(k))
+            bound.pop(sig.node.args.args[0].arg, None)
+            return RecCM(rec, name, bound)
+        return EnvFunc('%s.%s' % (rec.tag, name), make_cm)
     return EnvFunc('%s.%s' % (rec.tag, name), lambda it2, a, k: call_recorded(it2, rec, name, sig, a, k))
 
 
